@@ -40,23 +40,26 @@ fn encode_stream(f: &StreamFields, sealer: &awslc::seal::Application, creds: &Cr
 }
 
 /// (decoded, decrypted, fields equal to what was encoded)
-fn open_stream(bytes: &[u8], opener: &awslc::open::Application, f: &StreamFields, creds: &Credentials, genuine: bool) -> (bool, bool, bool) {
+fn open_stream(bytes: &[u8], opener: &awslc::open::Application, f: &StreamFields, creds: &Credentials, genuine: bool) -> (bool, bool, bool) { open_stream_ctl(bytes, opener, f, creds, genuine, None, f.pn) }
+
+/// `ctl`: the control key that authenticates the retransmission fix-up (None: first transmissions only); `pn`: the packet number the packet must show
+fn open_stream_ctl(bytes: &[u8], opener: &awslc::open::Application, f: &StreamFields, creds: &Credentials, genuine: bool, ctl: Option<&awslc::open::control::Stream>, pn: u64) -> (bool, bool, bool) {
     use crypto::open::Application as _;
     let mut raw = bytes.to_vec();
     let tag_len = opener.tag_len();
     let Ok((mut p, _rest)) = stream::decoder::Packet::decode(DecoderBufferMut::new(&mut raw), (), tag_len) else { return (false, false, false) };
-    let same = p.packet_number() == vi(f.pn) && p.stream_offset() == vi(f.offset) && p.is_fin() == f.fin && p.application_header() == &f.app_header[..]
+    let same = p.packet_number() == vi(pn) && p.stream_offset() == vi(f.offset) && p.is_fin() == f.fin && p.application_header() == &f.app_header[..]
         && p.source_queue_id() == f.queue.map(vi) && p.credentials() == creds && p.payload().len() == f.payload.len()
         && p.next_expected_control_packet() == vi(f.next_ctl) && p.control_data() == &f.control[..];
     let control = crypto::open::control::stream::Reliable::default();
-    let ok = p.decrypt_in_place(opener, &control).is_ok();
+    let ok = match ctl { Some(c) => p.decrypt_in_place(opener, c).is_ok(), None => p.decrypt_in_place(opener, &control).is_ok() };
     let same = same && (!ok || p.payload() == &f.payload[..]);
     // the copying path (decrypt into a separate buffer) must come to the same verdict
     let mut raw2 = bytes.to_vec();
     let (ok2, same2) = match stream::decoder::Packet::decode(DecoderBufferMut::new(&mut raw2), (), tag_len) {
         Ok((mut p2, _)) => {
             let mut outb = vec![0u8; p2.payload().len()];
-            let ok2 = p2.decrypt(opener, &control, crypto::UninitSlice::new(&mut outb)).is_ok();
+            let ok2 = match ctl { Some(c) => p2.decrypt(opener, c, crypto::UninitSlice::new(&mut outb)).is_ok(), None => p2.decrypt(opener, &control, crypto::UninitSlice::new(&mut outb)).is_ok() };
             (ok2, !ok2 || outb == f.payload)
         }
         Err(_) => (false, true),
@@ -64,14 +67,14 @@ fn open_stream(bytes: &[u8], opener: &awslc::open::Application, f: &StreamFields
     (true, accepted(genuine, ok, ok2), same && same2)
 }
 
-struct DgFields { pn: Option<u64>, payload: Vec<u8>, app_header: Vec<u8>, port: u16, next_ctl: Option<u64> }
+struct DgFields { pn: Option<u64>, payload: Vec<u8>, app_header: Vec<u8>, control: Vec<u8>, port: u16, next_ctl: Option<u64> }
 
 fn encode_dg(f: &DgFields, sealer: &awslc::seal::Application, creds: &Credentials) -> Vec<u8> {
-    let mut buf = vec![0u8; f.payload.len() + f.app_header.len() + 200];
+    let mut buf = vec![0u8; f.payload.len() + f.app_header.len() + f.control.len() + 200];
     let enc = EncoderBuffer::new(&mut buf);
     let mut payload = &f.payload[..];
     let mut hdr = &f.app_header[..];
-    let n = datagram::encoder::encode(enc, f.port, f.pn.map(vi), f.next_ctl.map(vi), vi(f.app_header.len() as u64), &mut hdr, &(), vi(f.payload.len() as u64),
+    let n = datagram::encoder::encode(enc, f.port, f.pn.map(vi), f.next_ctl.map(vi), vi(f.app_header.len() as u64), &mut hdr, &&f.control[..], vi(f.payload.len() as u64),
                                       &mut payload, sealer, creds);
     buf.truncate(n);
     buf
@@ -83,7 +86,7 @@ fn open_dg(bytes: &[u8], opener: &awslc::open::Application, f: &DgFields, creds:
     let tag_len = opener.tag_len();
     let Ok((mut p, _rest)) = datagram::decoder::Packet::decode(DecoderBufferMut::new(&mut raw), (), tag_len) else { return (false, false, false) };
     let same = p.credentials() == creds && p.source_control_port() == f.port && p.application_header() == &f.app_header[..]
-        && p.payload().len() == f.payload.len() && p.next_expected_control_packet() == f.next_ctl.map(vi);
+        && p.payload().len() == f.payload.len() && p.next_expected_control_packet() == f.next_ctl.map(vi) && p.control_data() == &f.control[..];
     let nonce = p.crypto_nonce();
     let key_phase = p.tag().key_phase();
     let header = p.header().to_vec();
@@ -129,18 +132,34 @@ pub fn record(args: &[String]) -> Value {
         let clen = [0usize, 0, 1, 5, 33][rng.random_range(0..5)];
         let control: Vec<u8> = (0..clen).map(|i| 0xa0 ^ i as u8).collect();
         let big = |rng: &mut StdRng| [0u64, 1, 63, 64, 16383, 16384, (1 << 30) - 1, 1 << 30, (1 << 40) + 5][rng.random_range(0..9)];
-        for kind in ["stream", "datagram"] {
+        for kind in ["stream", "stream_retx", "datagram"] {
             let r = std::panic::catch_unwind(std::panic::AssertUnwindSafe(|| {
                 let mut evs: Vec<Value> = vec![];
-                let (bytes, open): (Vec<u8>, Box<dyn Fn(&[u8], &awslc::open::Application, bool) -> (bool, bool, bool)>) = if kind == "stream" {
+                let (bytes, open): (Vec<u8>, Box<dyn Fn(&[u8], &awslc::open::Application, bool) -> (bool, bool, bool)>) = if kind == "stream_retx" {
+                    // a packet the sender retransmits under a new packet number: the header is rewritten in place and the
+                    // rewritten bytes are covered by a tag under the stream's control key
+                    let base = [0u64, 1, 63, 16383, 1 << 30][rng.random_range(0..5)];
+                    let f = StreamFields { pn: base, offset: big(&mut rng), payload: payload.clone(), fin: rng.random_bool(0.3), app_header: vec![], control: vec![],
+                                           queue: if rng.random_bool(0.5) { Some(rng.random_range(0..1000)) } else { None }, next_ctl: big(&mut rng) };
+                    let mut bytes = encode_stream(&f, &sealer, &creds);
+                    let ckey = [0x17u8 ^ k as u8; 64];
+                    let csealer = awslc::seal::control::Stream::new(&ckey, &aws_lc_rs::hmac::HMAC_SHA256);
+                    let copener = awslc::open::control::Stream::new(&ckey, &aws_lc_rs::hmac::HMAC_SHA256);
+                    let new_pn = base + [1u64, 4, 200, 70_000][rng.random_range(0..4)];
+                    let space = if rng.random_bool(0.5) { stream::PacketSpace::Stream } else { stream::PacketSpace::Recovery };
+                    stream::decoder::Packet::retransmit(DecoderBufferMut::new(&mut bytes), space, vi(new_pn), &csealer).expect("retransmit");
+                    (bytes, Box::new(move |b, o, g| open_stream_ctl(b, o, &f, &creds, g, Some(&copener), new_pn)))
+                } else if kind == "stream" {
                     let f = StreamFields { pn: big(&mut rng), offset: big(&mut rng), payload: payload.clone(), fin: rng.random_bool(0.3), app_header: app_header.clone(), control: control.clone(),
                                            queue: if rng.random_bool(0.5) { Some(rng.random_range(0..1000)) } else { None }, next_ctl: big(&mut rng) };
                     let bytes = encode_stream(&f, &sealer, &creds);
                     (bytes, Box::new(move |b, o, g| open_stream(b, o, &f, &creds, g)))
                 } else {
-                    let f = DgFields { pn: if rng.random_bool(0.7) { Some(big(&mut rng)) } else { None }, payload: payload.clone(), app_header: app_header.clone(),
+                    let f = DgFields { pn: if rng.random_bool(0.7) { Some(big(&mut rng)) } else { None }, payload: payload.clone(), app_header: app_header.clone(), control: vec![],
                                        port: rng.random(), next_ctl: if rng.random_bool(0.5) { Some(big(&mut rng)) } else { None } };
                     let f = DgFields { next_ctl: if f.pn.is_some() { f.next_ctl } else { None }, ..f };
+                    // control data travels only in ack-eliciting datagrams
+                    let f = DgFields { control: if f.next_ctl.is_some() { control.clone() } else { vec![] }, ..f };
                     let bytes = encode_dg(&f, &sealer, &creds);
                     (bytes, Box::new(move |b, o, g| open_dg(b, o, &f, &creds, g)))
                 };
@@ -155,7 +174,7 @@ pub fn record(args: &[String]) -> Value {
                     let mut m = bytes.clone();
                     if rng.random_bool(0.7) { m[i] ^= 1 << rng.random_range(0..8); } else { let old = m[i]; while m[i] == old { m[i] = rng.random(); } }
                     let (d, a, _) = open(&m, &opener, false);
-                    evs.push(json!({"ev": "data", "kind": kind, "suite": suite, "len": len, "mutated": true, "region": region(i, len, 16, plen), "at": i, "decoded": d, "authentic": a, "roundtrip": true}));
+                    evs.push(json!({"ev": "data", "kind": kind, "suite": suite, "len": len, "mutated": true, "region": region(i, len, 16, plen), "at": i, "xor": m[i] ^ bytes[i], "decoded": d, "authentic": a, "roundtrip": true}));
                 }
                 // truncation and extension
                 for cut in [1usize, 16, len / 2] {
